@@ -58,7 +58,12 @@ func genPair(isCA bool) pemPair {
 	return pemPair{pem.EncodeToMemory(&pem.Block{Type: "CERTIFICATE", Bytes: der}), pem.EncodeToMemory(&pem.Block{Type: "PRIVATE KEY", Bytes: kb})}
 }
 
-func dataURI(b []byte) string { return "data:" + base64.StdEncoding.EncodeToString(b) }
+// dataScheme is the spelling of the data: scheme used by dataURI in the current execution (URI schemes are
+// case-insensitive; a binary that takes another spelling as inline data must redact it just the same, one
+// that takes it for a file name refuses to start and nothing is demanded).
+var dataScheme = "data:"
+
+func dataURI(b []byte) string { return dataScheme + base64.StdEncoding.EncodeToString(b) }
 
 // listener helpers (real loopback sockets)
 type tcpServer struct {
@@ -152,6 +157,10 @@ func scenario(x *explore.X, bin string) {
 	form := forms[x.Choose("form", len(forms))]
 	level := levels[x.Choose("log-level", len(levels))]
 	mode := modes[x.Choose("log-http", len(modes))]
+	dataScheme = "data:"
+	if carrier == "tls-key-file" || carrier == "mitm-cakey-file" {
+		dataScheme = []string{"data:", "Data:", "DATA:"}[x.Choose("data-scheme-spelling", 3)]
+	}
 	if carrier == "proxy" && strings.Contains(secret, "@") {
 		x.Outcome("inadmissible") // the --proxy syntax admits only one '@'
 		return
@@ -216,14 +225,18 @@ func scenario(x *explore.X, bin string) {
 		opts["tls-key-file"] = dataURI(srvPair.key)
 		b64 := base64.StdEncoding.EncodeToString(srvPair.key)
 		needles = append(needles, b64, b64[20:60], strings.Split(string(srvPair.key), "\n")[1])
-		wantVisible = append(wantVisible, "tls-key-file=data:xxxxx")
+		if dataScheme == "data:" {
+			wantVisible = append(wantVisible, "tls-key-file=data:xxxxx")
+		}
 		useTLS = true
 	case "mitm-cakey-file":
 		opts["mitm-cacert-file"] = dataURI(caPair.cert)
 		opts["mitm-cakey-file"] = dataURI(caPair.key)
 		b64 := base64.StdEncoding.EncodeToString(caPair.key)
 		needles = append(needles, b64, b64[20:60], strings.Split(string(caPair.key), "\n")[1])
-		wantVisible = append(wantVisible, "mitm-cakey-file=data:xxxxx")
+		if dataScheme == "data:" {
+			wantVisible = append(wantVisible, "mitm-cakey-file=data:xxxxx")
+		}
 	}
 	if carrier != "proxy" {
 		opts["proxy"] = "http://127.0.0.1:" + upstream.port()
@@ -294,7 +307,15 @@ func scenario(x *explore.X, bin string) {
 		}
 	}
 	what := fmt.Sprintf("carrier=%s secret=%q form=%s log-level=%s log-http=%s", carrier, secret, form, level, mode)
+	if dataScheme != "data:" {
+		what += " scheme-spelling=" + dataScheme
+	}
 	x.Logf("%s", what)
+	if !ready && dataScheme != "data:" {
+		stop()
+		x.Outcome("refused-at-start-up/" + dataScheme) // taken for a file name: not inline key material for this binary
+		return
+	}
 	if !ready {
 		stop()
 		x.Failf("harness/not-ready", "%s: the binary did not come up: %s", what, out.String())
@@ -405,7 +426,7 @@ func TestC19(t *testing.T) {
 		t.Fatal("VERIF_FORWARDER_BIN not set (the check driver builds cmd/forwarder from the working tree)")
 	}
 	s := explore.NewSuite(t, "C19", "exploration",
-		"the real forwarder binary (built from the working tree without hooks) is started for every combination of carrier(6: --basic-auth, --api-basic-auth, --proxy userinfo, --credentials, data: URI of --tls-key-file, data: URI of --mitm-cakey-file) x secret(6 passwords incl. ':', '@', '%41', non-ASCII with '/', space) x form(flag, FORWARDER_* environment, YAML config file) x log level(3) x log-http mode(errors, none, short-url, url) with at most D deviations (D=2 quick) or as the full product (thorough, inadmissible combinations skipped); successful exchanges (GET through the upstream proxy or with injected site credentials, CONNECT), /configz, then a 407 and an upstream failure; stdout+stderr after the successful exchanges and at exit (not for log-http=errors), the /configz body and the error responses are searched for the secret literally, URL-escaped and base64-encoded (alone and as user:secret); the redaction placeholder and the user names must be present; non-trivial = the binary served the exchanges and was scanned")
+		"the real forwarder binary (built from the working tree without hooks) is started for every combination of carrier(6: --basic-auth, --api-basic-auth, --proxy userinfo, --credentials, data: URI of --tls-key-file, data: URI of --mitm-cakey-file, the scheme spelt data: / Data: / DATA: - a spelling the binary takes for a file name makes it refuse to start and demands nothing) x secret(6 passwords incl. ':', '@', '%41', non-ASCII with '/', space) x form(flag, FORWARDER_* environment, YAML config file) x log level(3) x log-http mode(errors, none, short-url, url) with at most D deviations (D=2 quick) or as the full product (thorough, inadmissible combinations skipped); successful exchanges (GET through the upstream proxy or with injected site credentials, CONNECT), /configz, then a 407 and an upstream failure; stdout+stderr after the successful exchanges and at exit (not for log-http=errors), the /configz body and the error responses are searched for the secret literally, URL-escaped and base64-encoded (alone and as user:secret); the redaction placeholder and the user names must be present; non-trivial = the binary served the exchanges and was scanned")
 	s.Assume = []string{"real time is used only as a liveness guard for the subprocess (no timing oracle)", "loopback TCP is available in the sandbox", "CLI usage errors that echo an inadmissible argument are outside the statement"}
 	s.Add(explore.Scenario{Name: "bounded", Tiers: []string{"quick"}, MaxDev: map[string]int{"quick": 2}, Run: func(x *explore.X) { scenario(x, bin) }})
 	s.Add(explore.Scenario{Name: "product", Tiers: []string{"thorough"}, Run: func(x *explore.X) { scenario(x, bin) }})
